@@ -48,12 +48,80 @@ def Fc2Ok (L : Ledger) (sp : List Id) (d : Fc2Diff) : Prop :=
   d.current.fc.val = d.e.fc.val ∧
   d.current.fc.missedHost ≤ d.current.fc.host.value
 
+/-- the id is recorded as consumed by a diff of some kind -/
+def SpentView (ms : Mid) (id : Id) : Prop :=
+  (∃ d, ms.scDiff? id = some d ∧ d.spent = true) ∨ (∃ d, ms.sfDiff? id = some d ∧ d.spent = true) ∨
+  (∃ d, ms.fc1Diff? id = some d ∧ d.resolved = true) ∨ (∃ d, ms.fc2Diff? id = some d ∧ d.resolution.isSome = true)
+
+theorem SpentView.agree {ms ms' : Mid} {x : Id} {P : Id → Prop} (h : SpentView ms x) (ha : Agree ms ms' P) (hp : ¬ P x) :
+    SpentView ms' x := by
+  obtain ⟨_, a1, a2, a3, a4, _⟩ := ha.2 x hp
+  unfold SpentView; rw [a1, a2, a3, a4]; exact h
+
 structure Inv (T : Kind → Id → Prop) (ms : Mid) : Prop where
   struct : Struct T ms
   sc : ∀ d ∈ ms.sces, ScOk ms.base ms.spends d
   sf : ∀ d ∈ ms.sfes, SfOk ms.base ms.spends d
   fc1 : ∀ d ∈ ms.fces, Fc1Ok ms.base ms.spends d
   fc2 : ∀ d ∈ ms.v2fces, Fc2Ok ms.base ms.spends d
+  /-- no id is consumed twice in the block -/
+  nodup : ms.spends.Nodup
+  /-- every consumed id has a diff saying so -/
+  spent : ∀ id ∈ ms.spends, SpentView ms id
+
+theorem Inv.not_spent_of_lookup_none {T} {ms : Mid} (hI : Inv T ms) {x : Id} (h : ms.lookup x = none) : x ∉ ms.spends := by
+  intro hx
+  rcases hI.spent x hx with ⟨d, hd, _⟩ | ⟨d, hd, _⟩ | ⟨d, hd, _⟩ | ⟨d, hd, _⟩
+  · obtain ⟨i, hi, _⟩ := scDiff?_some hd; rw [h] at hi; cases hi
+  · obtain ⟨i, hi, _⟩ := sfDiff?_some hd; rw [h] at hi; cases hi
+  · obtain ⟨i, hi, _⟩ := fc1Diff?_some hd; rw [h] at hi; cases hi
+  · obtain ⟨i, hi, _⟩ := fc2Diff?_some hd; rw [h] at hi; cases hi
+
+theorem Inv.kind_of_sc {T} {ms : Mid} (hI : Inv T ms) {x : Id} {d : ScDiff} (h : ms.scDiff? x = some d) : T Kind.sc x := by
+  obtain ⟨hm, hid⟩ := scDiff?_mem h
+  rw [← hid]; exact hI.struct.typed Kind.sc _ (List.mem_map_of_mem hm)
+theorem Inv.kind_of_sf {T} {ms : Mid} (hI : Inv T ms) {x : Id} {d : SfDiff} (h : ms.sfDiff? x = some d) : T Kind.sf x := by
+  obtain ⟨hm, hid⟩ := sfDiff?_mem h
+  rw [← hid]; exact hI.struct.typed Kind.sf _ (List.mem_map_of_mem hm)
+theorem Inv.kind_of_fc1 {T} {ms : Mid} (hI : Inv T ms) {x : Id} {d : Fc1Diff} (h : ms.fc1Diff? x = some d) : T Kind.fc1 x := by
+  obtain ⟨hm, hid⟩ := fc1Diff?_mem h
+  rw [← hid]; exact hI.struct.typed Kind.fc1 _ (List.mem_map_of_mem hm)
+theorem Inv.kind_of_fc2 {T} {ms : Mid} (hI : Inv T ms) {x : Id} {d : Fc2Diff} (h : ms.fc2Diff? x = some d) : T Kind.fc2 x := by
+  obtain ⟨hm, hid⟩ := fc2Diff?_mem h
+  rw [← hid]; exact hI.struct.typed Kind.fc2 _ (List.mem_map_of_mem hm)
+
+theorem Inv.not_spent_sc {T} {ms : Mid} (hI : Inv T ms) (hd : TDisj T) {x : Id} (hT : T Kind.sc x)
+    (h : ∀ d, ms.scDiff? x = some d → d.spent = false) : x ∉ ms.spends := by
+  intro hx
+  rcases hI.spent x hx with ⟨d, hv, hs⟩ | ⟨d, hv, _⟩ | ⟨d, hv, _⟩ | ⟨d, hv, _⟩
+  · rw [h d hv] at hs; cases hs
+  · cases hd _ _ _ hT (hI.kind_of_sf hv)
+  · cases hd _ _ _ hT (hI.kind_of_fc1 hv)
+  · cases hd _ _ _ hT (hI.kind_of_fc2 hv)
+theorem Inv.not_spent_sf {T} {ms : Mid} (hI : Inv T ms) (hd : TDisj T) {x : Id} (hT : T Kind.sf x)
+    (h : ∀ d, ms.sfDiff? x = some d → d.spent = false) : x ∉ ms.spends := by
+  intro hx
+  rcases hI.spent x hx with ⟨d, hv, _⟩ | ⟨d, hv, hs⟩ | ⟨d, hv, _⟩ | ⟨d, hv, _⟩
+  · cases hd _ _ _ hT (hI.kind_of_sc hv)
+  · rw [h d hv] at hs; cases hs
+  · cases hd _ _ _ hT (hI.kind_of_fc1 hv)
+  · cases hd _ _ _ hT (hI.kind_of_fc2 hv)
+theorem Inv.not_spent_fc1 {T} {ms : Mid} (hI : Inv T ms) (hd : TDisj T) {x : Id} (hT : T Kind.fc1 x)
+    (h : ∀ d, ms.fc1Diff? x = some d → d.resolved = false) : x ∉ ms.spends := by
+  intro hx
+  rcases hI.spent x hx with ⟨d, hv, _⟩ | ⟨d, hv, _⟩ | ⟨d, hv, hs⟩ | ⟨d, hv, _⟩
+  · cases hd _ _ _ hT (hI.kind_of_sc hv)
+  · cases hd _ _ _ hT (hI.kind_of_sf hv)
+  · rw [h d hv] at hs; cases hs
+  · cases hd _ _ _ hT (hI.kind_of_fc2 hv)
+theorem Inv.not_spent_fc2 {T} {ms : Mid} (hI : Inv T ms) (hd : TDisj T) {x : Id} (hT : T Kind.fc2 x)
+    (h : ∀ d, ms.fc2Diff? x = some d → d.resolution = none) : x ∉ ms.spends := by
+  intro hx
+  rcases hI.spent x hx with ⟨d, hv, _⟩ | ⟨d, hv, _⟩ | ⟨d, hv, _⟩ | ⟨d, hv, hs⟩
+  · cases hd _ _ _ hT (hI.kind_of_sc hv)
+  · cases hd _ _ _ hT (hI.kind_of_sf hv)
+  · cases hd _ _ _ hT (hI.kind_of_fc1 hv)
+  · rw [h d hv] at hs; cases hs
 
 theorem ScOk.mono {L sp sp'} {d : ScDiff} (h : ScOk L sp d) (hs : ∀ x ∈ sp, x ∈ sp') : ScOk L sp' d :=
   ⟨h.1, h.2.1, fun hh => hs _ (h.2.2 hh)⟩
@@ -106,8 +174,14 @@ theorem fc2Tot_congr {ms ms' : Mid} (hb : ms'.base = ms.base) (hs : ms'.v2fces =
 -- ------------------------------------------------------------------ Inv after a put
 
 theorem putSc_inv {T} {ms : Mid} (hI : Inv T ms) (hd : TDisj T) {id : Id} (hT : T .sc id) (f : ScDiff → ScDiff)
-    (hf : (scNew ms id f).e.id = id) (hok : ScOk ms.base ms.spends (scNew ms id f)) : Inv T (ms.putSc id f) := by
-  constructor
+    (hf : (scNew ms id f).e.id = id) (hok : ScOk ms.base ms.spends (scNew ms id f))
+    (hns : id ∉ ms.spends) : Inv T (ms.putSc id f) := by
+  have hA := putSc_agree hI.struct hd hT f hf
+  refine ⟨?_, ?_, ?_, ?_, ?_, by rw [putSc_spends_c1]; exact hI.nodup, ?_⟩
+  rotate_left 5
+  · intro y hy
+    rw [putSc_spends_c1] at hy
+    exact (hI.spent y hy).agree hA (fun h => hns (h ▸ hy))
   · exact putSc_struct hI.struct hd hT f hf
   · intro d hm; rw [putSc_base_c1, putSc_spends_c1]
     rcases putSc_mem hI.struct hd hT f hm with h | h
@@ -118,8 +192,14 @@ theorem putSc_inv {T} {ms : Mid} (hI : Inv T ms) (hd : TDisj T) {id : Id} (hT : 
   · rw [putSc_base_c1, putSc_spends_c1, putSc_v2fces]; exact hI.fc2
 
 theorem putSf_inv {T} {ms : Mid} (hI : Inv T ms) (hd : TDisj T) {id : Id} (hT : T .sf id) (f : SfDiff → SfDiff)
-    (hf : (sfNew ms id f).e.id = id) (hok : SfOk ms.base ms.spends (sfNew ms id f)) : Inv T (ms.putSf id f) := by
-  constructor
+    (hf : (sfNew ms id f).e.id = id) (hok : SfOk ms.base ms.spends (sfNew ms id f))
+    (hns : id ∉ ms.spends) : Inv T (ms.putSf id f) := by
+  have hA := putSf_agree hI.struct hd hT f hf
+  refine ⟨?_, ?_, ?_, ?_, ?_, by rw [putSf_spends_c1]; exact hI.nodup, ?_⟩
+  rotate_left 5
+  · intro y hy
+    rw [putSf_spends_c1] at hy
+    exact (hI.spent y hy).agree hA (fun h => hns (h ▸ hy))
   · exact putSf_struct hI.struct hd hT f hf
   · rw [putSf_base_c1, putSf_spends_c1, putSf_sces]; exact hI.sc
   · intro d hm; rw [putSf_base_c1, putSf_spends_c1]
@@ -130,8 +210,14 @@ theorem putSf_inv {T} {ms : Mid} (hI : Inv T ms) (hd : TDisj T) {id : Id} (hT : 
   · rw [putSf_base_c1, putSf_spends_c1, putSf_v2fces]; exact hI.fc2
 
 theorem putFc1_inv {T} {ms : Mid} (hI : Inv T ms) (hd : TDisj T) {id : Id} (hT : T .fc1 id) (f : Fc1Diff → Fc1Diff)
-    (hf : (fc1New ms id f).e.id = id) (hok : Fc1Ok ms.base ms.spends (fc1New ms id f)) : Inv T (ms.putFc1 id f) := by
-  constructor
+    (hf : (fc1New ms id f).e.id = id) (hok : Fc1Ok ms.base ms.spends (fc1New ms id f))
+    (hns : id ∉ ms.spends) : Inv T (ms.putFc1 id f) := by
+  have hA := putFc1_agree hI.struct hd hT f hf
+  refine ⟨?_, ?_, ?_, ?_, ?_, by rw [putFc1_spends_c1]; exact hI.nodup, ?_⟩
+  rotate_left 5
+  · intro y hy
+    rw [putFc1_spends_c1] at hy
+    exact (hI.spent y hy).agree hA (fun h => hns (h ▸ hy))
   · exact putFc1_struct hI.struct hd hT f hf
   · rw [putFc1_base_c1, putFc1_spends_c1, putFc1_sces_c1]; exact hI.sc
   · rw [putFc1_base_c1, putFc1_spends_c1, putFc1_sfes]; exact hI.sf
@@ -142,8 +228,14 @@ theorem putFc1_inv {T} {ms : Mid} (hI : Inv T ms) (hd : TDisj T) {id : Id} (hT :
   · rw [putFc1_base_c1, putFc1_spends_c1, putFc1_v2fces]; exact hI.fc2
 
 theorem putFc2_inv {T} {ms : Mid} (hI : Inv T ms) (hd : TDisj T) {id : Id} (hT : T .fc2 id) (f : Fc2Diff → Fc2Diff)
-    (hf : (fc2New ms id f).e.id = id) (hok : Fc2Ok ms.base ms.spends (fc2New ms id f)) : Inv T (ms.putFc2 id f) := by
-  constructor
+    (hf : (fc2New ms id f).e.id = id) (hok : Fc2Ok ms.base ms.spends (fc2New ms id f))
+    (hns : id ∉ ms.spends) : Inv T (ms.putFc2 id f) := by
+  have hA := putFc2_agree hI.struct hd hT f hf
+  refine ⟨?_, ?_, ?_, ?_, ?_, by rw [putFc2_spends_c1]; exact hI.nodup, ?_⟩
+  rotate_left 5
+  · intro y hy
+    rw [putFc2_spends_c1] at hy
+    exact (hI.spent y hy).agree hA (fun h => hns (h ▸ hy))
   · exact putFc2_struct hI.struct hd hT f hf
   · rw [putFc2_base_c1, putFc2_spends_c1, putFc2_sces_c1]; exact hI.sc
   · rw [putFc2_base_c1, putFc2_spends_c1, putFc2_sfes]; exact hI.sf
@@ -157,9 +249,21 @@ theorem putFc2_inv {T} {ms : Mid} (hI : Inv T ms) (hd : TDisj T) {id : Id} (hT :
 /-- variant of `putSc_inv` that records more spent ids at the same time -/
 theorem putSc_inv' {T} {ms : Mid} (hI : Inv T ms) (hd : TDisj T) {id : Id} (hT : T .sc id) (f : ScDiff → ScDiff)
     (hf : (scNew ms id f).e.id = id) (sp' : List Id) (hsub : ∀ x ∈ ms.spends, x ∈ sp')
-    (hok : ScOk ms.base sp' (scNew ms id f)) : Inv T { ms.putSc id f with spends := sp' } := by
+    (hok : ScOk ms.base sp' (scNew ms id f)) (hnd : sp'.Nodup) (hmem : ∀ y ∈ sp', y = id ∨ y ∈ ms.spends)
+    (hsp : (scNew ms id f).spent = true) : Inv T { ms.putSc id f with spends := sp' } := by
   have h0 := putSc_struct hI.struct hd hT f hf
-  constructor
+  have hA := putSc_agree hI.struct hd hT f hf
+  have hV := putSc_view hI.struct hd hT f hf
+  refine ⟨?_, ?_, ?_, ?_, ?_, hnd, ?_⟩
+  rotate_left 5
+  · intro y hy
+    by_cases hyi : y = id
+    · subst hyi
+      exact (Or.inl) ⟨_, hV, hsp⟩
+    · rcases hmem y hy with h | h
+      · exact absurd h hyi
+      · have h' := (hI.spent y h).agree hA hyi
+        exact h'
   · exact h0.same rfl (fun k => by cases k <;> rfl)
   · intro d hm; show ScOk (ms.putSc id f).base sp' d; rw [putSc_base_c1]
     rcases putSc_mem hI.struct hd hT f hm with h | h
@@ -177,9 +281,21 @@ theorem putSc_inv' {T} {ms : Mid} (hI : Inv T ms) (hd : TDisj T) {id : Id} (hT :
 
 theorem putSf_inv' {T} {ms : Mid} (hI : Inv T ms) (hd : TDisj T) {id : Id} (hT : T .sf id) (f : SfDiff → SfDiff)
     (hf : (sfNew ms id f).e.id = id) (sp' : List Id) (hsub : ∀ x ∈ ms.spends, x ∈ sp')
-    (hok : SfOk ms.base sp' (sfNew ms id f)) : Inv T { ms.putSf id f with spends := sp' } := by
+    (hok : SfOk ms.base sp' (sfNew ms id f)) (hnd : sp'.Nodup) (hmem : ∀ y ∈ sp', y = id ∨ y ∈ ms.spends)
+    (hsp : (sfNew ms id f).spent = true) : Inv T { ms.putSf id f with spends := sp' } := by
   have h0 := putSf_struct hI.struct hd hT f hf
-  constructor
+  have hA := putSf_agree hI.struct hd hT f hf
+  have hV := putSf_view hI.struct hd hT f hf
+  refine ⟨?_, ?_, ?_, ?_, ?_, hnd, ?_⟩
+  rotate_left 5
+  · intro y hy
+    by_cases hyi : y = id
+    · subst hyi
+      exact (fun h => Or.inr (Or.inl h)) ⟨_, hV, hsp⟩
+    · rcases hmem y hy with h | h
+      · exact absurd h hyi
+      · have h' := (hI.spent y h).agree hA hyi
+        exact h'
   · exact h0.same rfl (fun k => by cases k <;> rfl)
   · intro d hm; show ScOk (ms.putSf id f).base sp' d; rw [putSf_base_c1]
     have hm' : d ∈ (ms.putSf id f).sces := hm
@@ -197,9 +313,21 @@ theorem putSf_inv' {T} {ms : Mid} (hI : Inv T ms) (hd : TDisj T) {id : Id} (hT :
 
 theorem putFc1_inv' {T} {ms : Mid} (hI : Inv T ms) (hd : TDisj T) {id : Id} (hT : T .fc1 id) (f : Fc1Diff → Fc1Diff)
     (hf : (fc1New ms id f).e.id = id) (sp' : List Id) (hsub : ∀ x ∈ ms.spends, x ∈ sp')
-    (hok : Fc1Ok ms.base sp' (fc1New ms id f)) : Inv T { ms.putFc1 id f with spends := sp' } := by
+    (hok : Fc1Ok ms.base sp' (fc1New ms id f)) (hnd : sp'.Nodup) (hmem : ∀ y ∈ sp', y = id ∨ y ∈ ms.spends)
+    (hsp : (fc1New ms id f).resolved = true) : Inv T { ms.putFc1 id f with spends := sp' } := by
   have h0 := putFc1_struct hI.struct hd hT f hf
-  constructor
+  have hA := putFc1_agree hI.struct hd hT f hf
+  have hV := putFc1_view hI.struct hd hT f hf
+  refine ⟨?_, ?_, ?_, ?_, ?_, hnd, ?_⟩
+  rotate_left 5
+  · intro y hy
+    by_cases hyi : y = id
+    · subst hyi
+      exact (fun h => Or.inr (Or.inr (Or.inl h))) ⟨_, hV, hsp⟩
+    · rcases hmem y hy with h | h
+      · exact absurd h hyi
+      · have h' := (hI.spent y h).agree hA hyi
+        exact h'
   · exact h0.same rfl (fun k => by cases k <;> rfl)
   · intro d hm; show ScOk (ms.putFc1 id f).base sp' d; rw [putFc1_base_c1]
     have hm' : d ∈ (ms.putFc1 id f).sces := hm
@@ -217,9 +345,21 @@ theorem putFc1_inv' {T} {ms : Mid} (hI : Inv T ms) (hd : TDisj T) {id : Id} (hT 
 
 theorem putFc2_inv' {T} {ms : Mid} (hI : Inv T ms) (hd : TDisj T) {id : Id} (hT : T .fc2 id) (f : Fc2Diff → Fc2Diff)
     (hf : (fc2New ms id f).e.id = id) (sp' : List Id) (hsub : ∀ x ∈ ms.spends, x ∈ sp')
-    (hok : Fc2Ok ms.base sp' (fc2New ms id f)) : Inv T { ms.putFc2 id f with spends := sp' } := by
+    (hok : Fc2Ok ms.base sp' (fc2New ms id f)) (hnd : sp'.Nodup) (hmem : ∀ y ∈ sp', y = id ∨ y ∈ ms.spends)
+    (hsp : (fc2New ms id f).resolution.isSome = true) : Inv T { ms.putFc2 id f with spends := sp' } := by
   have h0 := putFc2_struct hI.struct hd hT f hf
-  constructor
+  have hA := putFc2_agree hI.struct hd hT f hf
+  have hV := putFc2_view hI.struct hd hT f hf
+  refine ⟨?_, ?_, ?_, ?_, ?_, hnd, ?_⟩
+  rotate_left 5
+  · intro y hy
+    by_cases hyi : y = id
+    · subst hyi
+      exact (fun h => Or.inr (Or.inr (Or.inr h))) ⟨_, hV, hsp⟩
+    · rcases hmem y hy with h | h
+      · exact absurd h hyi
+      · have h' := (hI.spent y h).agree hA hyi
+        exact h'
   · exact h0.same rfl (fun k => by cases k <;> rfl)
   · intro d hm; show ScOk (ms.putFc2 id f).base sp' d; rw [putFc2_base_c1]
     have hm' : d ∈ (ms.putFc2 id f).sces := hm
@@ -245,6 +385,14 @@ theorem Inv.scalars {T} {ms ms' : Mid} (hI : Inv T ms) (h1 : ms'.base = ms.base)
   · rw [h1, h3, h5]; exact hI.sf
   · rw [h1, h3, h6]; exact hI.fc1
   · rw [h1, h3, h7]; exact hI.fc2
+  · rw [h3]; exact hI.nodup
+  · intro y hy
+    rw [h3] at hy
+    have hl : ms'.lookup y = ms.lookup y := by unfold Mid.lookup; rw [h2]
+    have := hI.spent y hy
+    unfold SpentView at this ⊢
+    unfold Mid.scDiff? Mid.sfDiff? Mid.fc1Diff? Mid.fc2Diff? at this ⊢
+    rw [hl, h4, h5, h6, h7]; exact this
 
 theorem agree_scalars {ms ms' : Mid} (h1 : ms'.base = ms.base) (h2 : ms'.elements = ms.elements)
     (h3 : ms'.spends = ms.spends) (h4 : ms'.sces = ms.sces) (h5 : ms'.sfes = ms.sfes) (h6 : ms'.fces = ms.fces)
@@ -257,12 +405,6 @@ theorem agree_scalars {ms ms' : Mid} (h1 : ms'.base = ms.base) (h2 : ms'.element
   · unfold Mid.fc1Diff?; rw [hl, h6]
   · unfold Mid.fc2Diff?; rw [hl, h7]
   · unfold Mid.isSpent; rw [h3]
-
-/-- recording one more spent id keeps the invariant and agrees outside that id -/
-theorem Inv.addSpend {T} {ms : Mid} (hI : Inv T ms) (id : Id) : Inv T { ms with spends := id :: ms.spends } := by
-  have hs : ∀ x ∈ ms.spends, x ∈ id :: ms.spends := fun x hx => List.mem_cons_of_mem _ hx
-  exact ⟨hI.struct.same rfl (fun k => by cases k <;> rfl), fun d hm => (hI.sc d hm).mono hs,
-    fun d hm => (hI.sf d hm).mono hs, fun d hm => (hI.fc1 d hm).mono hs, fun d hm => (hI.fc2 d hm).mono hs⟩
 
 theorem agree_addSpend (ms : Mid) (id : Id) : Agree ms { ms with spends := id :: ms.spends } (· = id) :=
   ⟨rfl, fun x hx => ⟨rfl, rfl, rfl, rfl, rfl, isSpent_cons ms id x hx⟩⟩
